@@ -262,7 +262,9 @@ class CircuitTemplate(AbstractBaseTemplate):
         self.__doc__ = description
         self.circuits = circuits
         self.nodes = nodes
-        self.edges = edges
+        # rebuild the edge list the way the constructor does, so that the edge look-up table knows the new edges
+        self._edge_map = {}
+        self.edges = self._load_edge_templates(edges) if edges else []
 
     def update_var(self, node_vars: dict = None, edge_vars: list = None):
         """Update the value of node or edge variables.
